@@ -183,6 +183,9 @@ ENV_DYN = ["[req{id=1}]=debug", "[req{id=2}]=debug", "[req{id=3}]=trace", "[req]
            "[job]=debug", "[job]=trace", "[req{id=2}]=info", "b[job]=trace", "[req{id=1}]=warn"]
 
 
+F12_SHAPED = {"[req{id=1}]=warn"}
+
+
 def gen_env_case(rng):
     """steps: ('init', [d]) ('reload', [d]) ('modify', d) ('newdispatch',) ('rebuild',) ('probe', t)"""
     cur = [rng.choice(ENV_BASE)] + rng.sample(ENV_DYN, rng.choice([0, 1, 1, 2]))
@@ -201,13 +204,20 @@ def gen_env_case(rng):
             steps.append(("rebuild",))
         steps.append(("probe", 0))
         steps.append(("probe", 1))
+    # a layer answering `sometimes` sits above the reloadable filter (seeded C12-I).  Not when a span directive is less verbose than
+    # the span it names (`[req{id=1}]=warn`, `req` is an INFO span): there EnvFilter's register_callsite says `always` and its
+    # `enabled` says false - known finding F12 (C08 / C11) - so whether the span exists depends on which of the two is consulted,
+    # and the comparison with the plain stack would report F12, not anything about reloading.
+    used = [d for st in steps if st[0] in ("init", "reload") for d in st[1]] + [st[1] for st in steps if st[0] == "modify"]
+    if rng.random() < 0.4 and not any(d in F12_SHAPED for d in used):
+        steps[0] = ("inits", steps[0][1])
     return steps
 
 
 def env_text(steps):
     out = []
     for st in steps:
-        if st[0] in ("init", "reload"):
+        if st[0] in ("init", "inits", "reload"):
             out.append("%s %s" % (st[0], ",".join(st[1])))
         elif st[0] == "modify":
             out.append("modify %s" % st[1])
@@ -243,6 +253,8 @@ ENV_CORPUS = [
     [("init", ["warn", "[req{id=1}]=debug"]), ("probe", 0), ("modify", "[req{id=2}]=debug"), ("probe", 0), ("probe", 1)],
     [("init", ["error", "[req]=info"]), ("probe", 1), ("modify", "[req]=trace"), ("probe", 0), ("probe", 1), ("modify", "[job]=debug"), ("probe", 1)],
     [("init", ["info"]), ("probe", 0), ("modify", "[job]=trace"), ("probe", 0), ("reload", ["warn", "[req{id=3}]=trace"]), ("probe", 1), ("probe", 0)],
+    # a layer answering `sometimes` above the reloadable filter: the reloaded filter must still be told about every callsite (seeded C12-I)
+    [("inits", ["warn"]), ("probe", 0), ("reload", ["warn", "[req]=debug"]), ("probe", 0), ("probe", 1), ("modify", "[job]=trace"), ("probe", 1)],
 ]
 
 
@@ -260,7 +272,7 @@ def env_stream(ctx, rep, binpath, n):
         res = {"rc": rc, "errors": errors, "diffs": []}
         cur, k = [], 0
         for j, st in enumerate(steps):
-            if st[0] in ("init", "reload"):
+            if st[0] in ("init", "inits", "reload"):
                 cur = list(st[1])
             elif st[0] == "modify":
                 cur = cur + [st[1]]
@@ -270,7 +282,9 @@ def env_stream(ctx, rep, binpath, n):
                     break
                 got = probes[k]
                 k += 1
-                # the reference: a fresh process, the filter parsed from the same directives, probed on the same thread
+                # the reference: a fresh process, the filter parsed from the same directives, probed on the same thread - always under the
+                # plain recording layer: a layer that answers `sometimes` and accepts everything (`inits`) filters nothing, so it must not
+                # change what is delivered either (and a change that breaks both alike cannot hide behind a like-for-like reference)
                 _, ref, rerr = env_probes(binpath, env_text([("init", cur), ("probe", st[1])]), os.path.join(d, "e%04d_r%02d.case" % (i, j)))
                 if rerr or len(ref) != 1:
                     res["errors"].append("reference failed: %s" % rerr)
@@ -279,7 +293,7 @@ def env_stream(ctx, rep, binpath, n):
                 # deliveries must be exactly the fresh filter's; the global max level may only be too HIGH (an unrelated collector
                 # that came and went leaves it up), never below what the fresh filter needs
                 if got[1] != ref[0][1] or rank.get(got[2].lower(), -1) < rank.get(ref[0][2].lower(), 9):
-                    last = next((x for x in reversed(steps[:j]) if x[0] in ("modify", "reload", "init")), None)
+                    last = next((x for x in reversed(steps[:j]) if x[0] in ("modify", "reload", "init", "inits")), None)
                     res["diffs"].append({"after_step": list(last) if last else None, "probe_thread": st[1], "directives": cur,
                                          "observed": got[1], "observed_max": got[2], "fresh_filter": ref[0][1], "fresh_max": ref[0][2]})
         return res
